@@ -275,7 +275,7 @@ func Run(ctx *common.Ctx) {
 		}
 	}
 	ctx.Meta.DistinctNontrivial = len(distinct)
-	ctx.Meta.Rule = "random sequences (3..30 ops, thorough 3..60) of History.Add (plain, multi-line, non-ASCII, adjacent duplicates, and in 35% of the sequences blank/leading-blank/trailing-blank/tab-containing/empty-line forms) / Clear(start,end) (35% the whole range, else start in -2..6 and end in -2..8 counted from the most recent entry; through History.Clear or (clear-history :start s :end e) on the global repl.TheHistory) / SetLimit(0..11) / restart, from an empty directory, an existing history or a stale history.tmp; memory, both files and a fresh Load observed after every op; for the first sequences of the run a worker process is killed (strace inject SIGKILL) on entering every state-changing openat/write/rename and the directory + fresh Load recorded; distinct = distinct op sequences of length >= 3; (c) histories of 3-12 KB in which the newline of one entry falls on byte 4094..4097, 8191..8193, 12288 or a random offset, single- and two-line forms, reloaded by a fresh History; (d) 25 (thorough 300) sequences of 2-5 REPL sessions, each a process of its own on the same configuration directory, setting 0-3 of five *print-...* variables (integers or nil): every session must start with the values last set in earlier sessions, compared with the settings model; (e) 90 (thorough 900) sequences (3..24 ops, thorough 3..60) on the global repl.TheStash: Stash.Add (plain, multi-line, blanks at the ends, strings and comments holding parentheses, repetitions, and in 30% of the sequences blank/TAB-containing/empty-line/incomplete/two-expression/reader-rejected forms) / Stash.Clear or (clear-stash :start s :end e) with ranges as above / (use-stash file) / restart (empty Stash + LoadExpanded), from no stash file, one as Add writes it, one as Clear writes it, slip's hand-written test file, with or without a stale stash.lisp.tmp; memory (through Stash.Nth), both files and a fresh LoadExpanded (forms, reader failure) after every op; for the first sequences a worker process is killed on entering every state-changing system call; (f) 4 (thorough 40) configuration directories with saved settings: the session that changes one variable is killed on entering every state-changing system call on config.lisp / config.lisp.tmp and a fresh session reports the settings it starts with (must be all before or all after; compared with the step model of updateConfigFile)"
+	ctx.Meta.Rule = "random sequences (3..30 ops, thorough 3..60) of History.Add (plain, multi-line, non-ASCII, adjacent duplicates, and in 35% of the sequences blank/leading-blank/trailing-blank/tab-containing/empty-line forms) / Clear(start,end) (35% the whole range, else start in -2..6 and end in -2..8 counted from the most recent entry; through History.Clear or (clear-history :start s :end e) on the global repl.TheHistory) / SetLimit(0..11) / restart, from an empty directory, an existing history or a stale history.tmp; memory, both files and a fresh Load observed after every op; for the first sequences of the run a worker process is killed (strace inject SIGKILL) on entering every state-changing openat/write/rename and the directory + fresh Load recorded; distinct = distinct op sequences of length >= 3; (c) histories of 3-12 KB in which the newline of one entry falls on byte 4094..4097, 8191..8193, 12288 or a random offset, single- and two-line forms, reloaded by a fresh History; (d) 25 (thorough 300) sequences of 2-5 REPL sessions, each a process of its own on the same configuration directory, setting 0-3 of five *print-...* variables (integers or nil): every session must start with the values last set in earlier sessions, compared with the settings model; (e) 90 (thorough 900) sequences (3..24 ops, thorough 3..60) on the global repl.TheStash: Stash.Add (plain, multi-line, blanks at the ends, strings and comments holding parentheses, repetitions, and in 30% of the sequences blank/TAB-containing/empty-line/incomplete/two-expression/reader-rejected forms) / Stash.Clear or (clear-stash :start s :end e) with ranges as above / (use-stash file) / restart (empty Stash + LoadExpanded), from no stash file, one as Add writes it, one as Clear writes it, slip's hand-written test file, with or without a stale stash.lisp.tmp; memory (through Stash.Nth), both files and a fresh LoadExpanded (forms, reader failure) after every op; the model's reader is a table of the real reader's verdicts (slip.Read in the REPL scope, as fullForm) on every text LoadExpanded puts to it on the observed files and on every line-prefix of every form; for the first sequences a worker process is killed on entering every state-changing system call; (f) 4 (thorough 40) configuration directories with saved settings: the session that changes one variable is killed on entering every state-changing system call on config.lisp / config.lisp.tmp and a fresh session reports the settings it starts with (must be all before or all after; compared with the step model of updateConfigFile)"
 	header := "From C20 Require Import Model Spec Corr.\nOpen Scope N_scope.\n"
 	footer := "Definition res := Eval vm_compute in check_all cases.\nPrint res.\nDefinition gcount := Eval vm_compute in guard_count cases.\nPrint gcount.\n"
 	ctx.WriteShards("cases", header, "case", footer, terms, descs, 16)
